@@ -190,7 +190,8 @@ def all_bytes_in_context(frames):
 
 
 SQL_BYTE_FRAMES = [("", ""), ("a", ""), ("", "a"), ("a", "1"), ("1", ""), (" ", " "), ("'", ""), ("", "'"), ("1 ", " 1"), ("@", ""), ("a.", ""),
-                   ("select ", " from x"), ("1 or ", "=1"), ("q'", "a"), ("$", "$"), ("0x", ""), ("1e", ""), ("\\", "")]
+                   ("select ", " from x"), ("1 or ", "=1"), ("q'", "a"), ("$", "$"), ("$a", "$x$a$"), ("0x", ""), ("1e", ""), ("\\", ""),
+                   ("1", "/*x*/"), ("1", "--"), ("1", "#"), ("a", "--"), ("1", "/"), ("1", "-"), ("1 union", "select 1"), ("x' or 1", "1 -- ")]
 HTML_BYTE_FRAMES = [("", ""), ("<", ""), ("<a", ">"), ("<a ", "=1>"), ("<a b", "c=1>"), ("<a b=", ">"), ("</", ">"), ("<!", ">"), ("<!--", "-->"),
                     ("<a b='", "'>"), ("x", " onclick=1"), ("<a href=", "javascript:1>"), ("&#", ";")]
 
